@@ -210,6 +210,13 @@ func (ka *ecdheKeyAgreementGM) processServerKeyExchange(config *Config, clientHe
 		return errors.New("tls: server selected unsupported curve")
 	}
 	ka.curveid = CurveID(skx.key[1])<<8 | CurveID(skx.key[2])
+	// The server's point is decoded on the SM2 curve below, while
+	// generateClientKeyExchange computes on the curve that this field names
+	// (or runs X25519 on a share that is never stored): the two must be the
+	// same curve.
+	if named, ok := curveForCurveID(ka.curveid); !ok || named != sm2.P256Sm2() {
+		return errors.New("tls: server selected unsupported curve")
+	}
 
 	publicLen := int(skx.key[3])
 	if publicLen+4 > len(skx.key) {
